@@ -41,77 +41,40 @@ sanitize (const char *str, size_t length)
 }
 
 
-const char *
-sanitize_utf8 (const char *text, size_t length)
-{
-#define TEXT_SIZE 2048
-
-    int c1 = 0, c2 = 0; /* characters */
-    int p1 = 0, p2 = 0; /* byte position of characters */
-    int pos = 0;        /* position in sanitized array */
-    static char sanitized[TEXT_SIZE];
-    char buf[32];
-
-
-/* html data contain some unneccessary characters:
+/* fput_sanitized_utf8: write the text to the stream; control characters and
+ * bytes that are not well-formed UTF-8 are written as 0xHH.
+ *
+ * html data contain some unneccessary characters:
  * 1) such characters as '&lrm;' and '&rlm;' broke encoding to punycode;
  * 2) we don't want any '\r', '\n' characters in the output CSV file.
  */
-#define SKIP(c, p, l) do { \
-    if ((c) < 0x0020 || (c) == 0x007f) { \
-        sprintf (buf, "0x%02x", c); \
-        size_t x = strlen (buf); \
-        memcpy (sanitized + pos, buf, x); \
-        pos += x; \
-    } \
-    else { \
-        assert (pos < TEXT_SIZE); \
-        memcpy (sanitized + pos, text + p, l); \
-        pos += l; \
-    } \
-} while (0)
+void
+fput_sanitized_utf8 (FILE *fh, const char *text, size_t length)
+{
+    int c;          /* character */
+    size_t pos;     /* byte position of the character */
+    size_t len;     /* byte length of the character */
 
 
-    utf8_decode_init ((char *) text, length);
-    /* look forward for characters and their lengths.
-     * Such way (may be ugly) helps us avoid creation of utf8_encode() func.
-     */
-    for (;;) {
-        c1 = utf8_decode_next ();
-        p1 = utf8_decode_at_byte ();
+    utf8_decode_init ((char *) text, (int) length);
 
-        if (c1 < 0) {
-            if (c2 > 0) { /* it is possible that we miss something */
-                /* at p2, length: len - p2 */
-                SKIP(c2, p2, length - p2);
-            }
-            break;
+    while ((c = utf8_decode_next ()) >= 0) {
+        pos = (size_t) utf8_decode_at_byte ();
+
+        if (c < 0x0020 || c == 0x007f) {
+            fprintf (fh, "0x%02x", c);
+            continue;
         }
 
-        if (p2 > 0) { /* previous character */
-            /* at p2, length: p1 - p2 */
-            SKIP(c2, p2, p1 - p2);
-        }
-
-        /* look forward */
-        c2 = utf8_decode_next ();
-        p2 = utf8_decode_at_byte ();
-
-        if (c2 > 0) {
-            /* at p1, length: p2 - p1 */
-            SKIP(c1, p1, p2 - p1);
-        }
-        else {
-            /* it possible that we read everything; does not work always. */
-            /* at p1, length: len - p1 */
-            SKIP(c1, p1, length - p1);
-        }
+        len = (c < 0x0080) ? 1 : (c < 0x0800) ? 2 : (c < 0x10000) ? 3 : 4;
+        fwrite (text + pos, 1, len, fh);
     }
 
-    assert (c1 == UTF8_END);
-    sanitized[pos] = '\0';
-
-    return sanitized;
+    if (c != UTF8_END) {
+        /* invalid UTF-8: show the bytes of the rest of the text */
+        for (pos = (size_t) utf8_decode_at_byte (); pos < length; pos++)
+            fprintf (fh, "0x%02x", (unsigned char) text[pos]);
+    }
 }
 
 #endif /* MAIN_H */
